@@ -352,8 +352,15 @@ Theorem C13_deployed_decision_same_url : forall fixed_F10 L,
 Proof. exact deployed_decision_same_url. Qed.
 Print Assumptions C13_deployed_decision_same_url.
 
-(** C13-F10 (open; [false] = the tree as it is, [true] = the candidate repair fixes/C13-F10.diff) *)
-Theorem C13_F10_refuted :
+(** the tree as it is (fix: f446e16): no guard *)
+Theorem C13_deployed_decision_same_url_repo : forall L,
+  wf_lreqb L = true -> nonempty (l_method L) = true ->
+  url_parts (view_tp true L) = url_parts (view_direct L).
+Proof. intros L W Hm. exact (deployed_decision_same_url true L W Hm eq_refl). Qed.
+Print Assumptions C13_deployed_decision_same_url_repo.
+
+(** C13-F10 (repaired by fix: f446e16; [false] = the pinned extractURL, [true] = the tree as it is) *)
+Theorem C13_F10_pinned_refuted :
   wf_lreqb (w10_req "b=2&a=1") = true /\ g_F10 (w10_req "b=2&a=1") = true /\
   v_query (view_direct (w10_req "b=2&a=1")) = "b=2&a=1"%string /\ v_query (view_tp false (w10_req "b=2&a=1")) = "a=1&b=2"%string /\
   v_query (view_tp false (w10_req "q=a%20b")) = "q=a+b"%string /\ v_query (view_tp false (w10_req "a=1;b=2")) = ""%string /\
@@ -361,4 +368,4 @@ Theorem C13_F10_refuted :
   url_parts (view_tp true (w10_req "b=2&a=1")) = url_parts (view_direct (w10_req "b=2&a=1")) /\
   v_query (view_tp true (w10_req "a=1;b=2")) = "a=1;b=2"%string.
 Proof. exact F10_refuted. Qed.
-Print Assumptions C13_F10_refuted.
+Print Assumptions C13_F10_pinned_refuted.
